@@ -16,11 +16,11 @@ RULE = ("schema-first logical documents (nested objects, arrays, arrays of objec
         "implementation's tape / reader tokens of the rendering; documents with ghost {} objects (~28%) are outside TextDoc (only "
         "expected-vs-spec_value is evaluated, on the ghost-free document); plus hand-made pairs from corpus/C02/spec_tie.case.  "
         # [a_c02]
-        "ext_spec: 1600 documents generated in the full TextDoc grammar (object tails, key-value arrays, headers over arrays and objects, "
+        "ext_spec: 3000 documents generated in the full TextDoc grammar (object tails, key-value arrays, headers over arrays and objects, "
         "`{}` , parameter blocks) x 8 layout styles x both encodings x shapes derived from them (structs incl. `remainder` and parameter names, "
         "maps, seq / tuple, header views, Option / Property, mis-hints) x 5 entry points; oracle = the EXTRACTED TextDeSpec2.spec_value2 "
         "(true for the slice / tape / ObjectReader paths, false for the reader paths where it fits).  "
-        "hints: 1000 documents `v <op> value  w = scalar` x every deserialize_* method (incl. char, str, bytes, byte_buf, unit, unit_struct, "
+        "hints: 2000 documents `v <op> value  w = scalar` x every deserialize_* method (incl. char, str, bytes, byte_buf, unit, unit_struct, "
         "newtype_struct, tuple_struct, i128, u128, identifier) with a recording visitor x 5 entry points; oracle = a Python reading of the property text")
 TRUSTED = ["walk_model: the extracted walks are fed the implementation's own tape (tt.parse) resp. reader tokens (tr.slice, chunking-independent by C07) of each text; Scalar::to_f64 is the extracted ScalarF64.to_f64_bits, the float casts of serde's visitors are the machine's (OCaml glue)",
            "serde's primitive Deserialize impls (u8..u64, i8..i64, f32, f64, bool, String, IgnoredAny) and serde-derive's code for "
